@@ -256,6 +256,7 @@ Invoke(T, F, adopt) ==
         \* the prediction: which commands run, the verdict, and what is remembered per step
         /\ Rec([op |-> "invoke", targets |-> SetSeq(T), fail |-> SetSeq(F), adopt |-> adopt,
                 ran |-> SetSeq({g.steps[s].outs[1] : s \in r.ran}), ok |-> ok, err |-> r.err,
+                nok |-> Cardinality(r.ran \ r.failed),
                 deps |-> [s \in StepIds(g) |-> LoadedFor(g, r.log, s).deps],
                 recorded |-> SetSeq({s \in StepIds(g) : LoadedFor(g, r.log, s).tok # ""})])
   /\ vouched' = (vouched \/ adopt)
@@ -298,6 +299,7 @@ InvokeRegen(T, Fn) ==
         /\ Rec([op |-> "invoke2", targets |-> SetSeq(T), fail |-> SetSeq(Fn),
                 ran1 |-> SetSeq(NamesOf(g, r1.ran)), reload |-> reload,
                 ran2 |-> SetSeq(NamesOf(g2, r2.ran)), ok |-> ok, unknown |-> SetSeq(unknown),
+                nok |-> Cardinality(r1.ran \ r1.failed) + Cardinality(r2.ran \ r2.failed),
                 deps |-> [s \in StepIds(gEnd) |-> LoadedFor(gEnd, r2.log, s).deps],
                 recorded |-> SetSeq({s \in StepIds(gEnd) : LoadedFor(gEnd, r2.log, s).tok # ""})])
   /\ UNCHANGED <<reads, vouched, plan>>
@@ -312,7 +314,7 @@ Next ==
         Invoke(T, F, FALSE)
   \/ \E T \in TargetSets(Cur) : Invoke(T, {}, TRUE)
   \/ \E v \in DOMAIN Versions : PlanRegen(v)
-  \/ \E T \in {{}} \cup {{o} : o \in AllOuts(Cur) \ {MF}} :
+  \/ \E T \in {{}} \cup {{o} : o \in AllOuts(Cur)} :      \* (the manifest itself may be the request)
         \E Fn \in {{}} \cup {{o} : o \in AllOuts(Cur)} : InvokeRegen(T, Fn)
 
 Spec == Init /\ [][Next]_vars
